@@ -62,6 +62,12 @@ type (
 		// (genOpts.ipHosts); genReq then also draws request hosts that are IP literals.  Not
 		// part of the rendered YAML.
 		IPHosts bool `json:"ipHosts,omitempty"`
+		// AllMethods: the spec was generated with the full set of methods the validation accepts
+		// in its method lists (genOpts.allMethods); genReq then draws request methods from that
+		// full set too (plus one unknown method), preferring FocusMethod and the methods the
+		// spec lists.  Not part of the rendered YAML.
+		AllMethods  bool   `json:"allMethods,omitempty"`
+		FocusMethod string `json:"focusMethod,omitempty"`
 	}
 	gReq struct {
 		Method     string      `json:"m"`
@@ -243,7 +249,10 @@ func buildMux(s *gSpec, mapper context.MuxMapper) (*mux, error) {
 }
 
 func (q *gReq) std() *http.Request {
-	r := httptest.NewRequest(q.Method, "http://placeholder"+q.Path, http.NoBody)
+	// (httptest.NewRequest reads a CONNECT target as an authority; the generated CONNECT
+	// requests carry an ordinary path like every other request, so the method is set afterwards)
+	r := httptest.NewRequest("GET", "http://placeholder"+q.Path, http.NoBody)
+	r.Method = q.Method
 	r.Host = q.Host
 	for _, kv := range q.Headers {
 		r.Header.Add(kv[0], kv[1])
@@ -548,6 +557,8 @@ var (
 	genPrefixes    = []string{"/a", "/a/", "/", "/b", "/a/b"}
 	genPathRegexps = []string{`^/a`, `/b$`, `^/(a|b)/(.*)$`, `^/[a-z]+$`, `^/a/([a-z])/?(.*)$`}
 	genMethods     = []string{"GET", "POST", "PUT", "DELETE"}
+	// every method the spec validation accepts in a path's method list (genOpts.allMethods)
+	genAllMethods = []string{"GET", "HEAD", "POST", "PUT", "PATCH", "DELETE", "CONNECT", "OPTIONS", "TRACE"}
 	genHdrKeys     = []string{"X-V", "X-Env", "User-Kind"}
 	genHdrVals     = []string{"canary", "prod", "v1"}
 	// the last two also accept the empty value, i.e. an absent header
@@ -594,6 +605,46 @@ type genOpts struct {
 	// ipHosts: about half of the rules get a host condition written for IP literals (see
 	// genIPHosts / genIPHostRegexps) and requests are drawn with IP-literal hosts too.
 	ipHosts bool
+	// allMethods: method lists are drawn from the full set of methods the validation accepts
+	// (genAllMethods): single-method lists, lists with all nine, all but one, arbitrary
+	// subsets; focusMethod (one of the nine, may be empty) is the method this spec's lists and
+	// requests prefer, so that a run walks through the whole alphabet.
+	allMethods  bool
+	focusMethod string
+}
+
+// genMethodList: a method list over the full alphabet.
+func genMethodList(rng *rand.Rand, focus string) []string {
+	other := func() string { return pick(rng, genAllMethods) }
+	pref := func() string {
+		if focus != "" && rng.Intn(2) == 0 {
+			return focus
+		}
+		return other()
+	}
+	switch rng.Intn(6) {
+	case 0, 1: // a single method
+		return []string{pref()}
+	case 2: // all of them
+		l := append([]string{}, genAllMethods...)
+		rng.Shuffle(len(l), func(i, j int) { l[i], l[j] = l[j], l[i] })
+		return l
+	case 3: // all but one
+		drop := pref()
+		var l []string
+		for _, m := range genAllMethods {
+			if m != drop {
+				l = append(l, m)
+			}
+		}
+		return l
+	default:
+		l := subset(rng, genAllMethods, 1)
+		if focus != "" && rng.Intn(2) == 0 {
+			l = appendUniq(l, focus)
+		}
+		return l
+	}
 }
 
 func genHeader(rng *rand.Rand) gHeader {
@@ -650,7 +701,11 @@ func genPath(rng *rand.Rand, o genOpts, n *int) gPath {
 			p.Regexp = pick(rng, genPathRegexps)
 		}
 	}
-	if rng.Intn(2) == 0 {
+	if o.allMethods {
+		if rng.Intn(4) != 0 {
+			p.Methods = genMethodList(rng, o.focusMethod)
+		}
+	} else if rng.Intn(2) == 0 {
 		p.Methods = subset(rng, genMethods, 1)
 	}
 	if o.headers && rng.Intn(3) == 0 {
@@ -745,7 +800,7 @@ func genRule(rng *rand.Rand, o genOpts, n *int) gRule {
 }
 
 func genSpec(rng *rand.Rand, o genOpts) *gSpec {
-	s := &gSpec{IPHosts: o.ipHosts}
+	s := &gSpec{IPHosts: o.ipHosts, AllMethods: o.allMethods, FocusMethod: o.focusMethod}
 	n := 0
 	nr := 1 + rng.Intn(o.maxRules)
 	for i := 0; i < nr; i++ {
@@ -753,6 +808,22 @@ func genSpec(rng *rand.Rand, o genOpts) *gSpec {
 	}
 	if o.ipf && rng.Intn(3) == 0 {
 		s.IPF = genIPF(rng)
+	}
+	if o.allMethods && o.focusMethod != "" {
+		// one entry naming the focus method alone: a copy of some entry (same path condition,
+		// own backend, headers kept or dropped) right in front of it or right behind it
+		r := &s.Rules[rng.Intn(len(s.Rules))]
+		pi := rng.Intn(len(r.Paths))
+		d := r.Paths[pi]
+		d.Backend = fmt.Sprintf("be-%d", n)
+		d.Methods = []string{o.focusMethod}
+		if rng.Intn(2) == 0 {
+			d.Headers, d.MatchAll = nil, false
+		}
+		at := pi + rng.Intn(2)
+		paths := append([]gPath{}, r.Paths[:at]...)
+		paths = append(paths, d)
+		r.Paths = append(paths, r.Paths[at:]...)
 	}
 	return s
 }
@@ -815,6 +886,25 @@ func muxCacheProbe(m *mux, q *gReq) (hit bool, kind string) {
 // genReq produces a request biased towards the spec's own vocabulary.
 func genReq(rng *rand.Rand, s *gSpec, withClient bool) gReq {
 	q := gReq{Method: pick(rng, append([]string{"PATCH"}, genMethods...))}
+	if s != nil && s.AllMethods {
+		// any of the nine methods a list may name, or one that no list can name; the spec's
+		// focus method and the methods its lists name are preferred
+		q.Method = pick(rng, append([]string{"PROPFIND"}, genAllMethods...))
+		switch k := rng.Intn(3); {
+		case k == 0 && s.FocusMethod != "":
+			q.Method = s.FocusMethod
+		case k == 1:
+			var listed []string
+			for ri := range s.Rules {
+				for pi := range s.Rules[ri].Paths {
+					listed = append(listed, s.Rules[ri].Paths[pi].Methods...)
+				}
+			}
+			if len(listed) > 0 {
+				q.Method = pick(rng, listed)
+			}
+		}
+	}
 	q.Host = pick(rng, append([]string{"c.org"}, genHosts...))
 	if rng.Intn(3) == 0 {
 		q.Host += pick(rng, []string{":80", ":8080"})
@@ -874,13 +964,99 @@ func isPublic(ip string) bool {
 	return true
 }
 
-// clientIP is the address the property speaks of for a generated request.
+// clientIP is the address the property speaks of for a generated request: the client address
+// as the gateway derives it (realip.FromRequest of the unchanged tree, re-stated here): when
+// neither X-Real-Ip nor X-Forwarded-For carries a value, the host of RemoteAddr; otherwise the
+// first entry of the comma-separated X-Forwarded-For value (blanks trimmed) that parses as an
+// IP address and is not loopback / private / link-local; when there is none, the X-Real-Ip
+// value as sent (possibly empty, possibly not an address).  "" = no address derivable.  Only
+// the first header line of each name counts (the generator sends one line per name).
 func (q *gReq) clientIP() string {
-	for _, kv := range q.Headers {
-		if kv[0] == "X-Forwarded-For" || kv[0] == "X-Real-Ip" {
-			return kv[1]
+	xri, xff := refHeaderGet(q, "X-Real-Ip"), refHeaderGet(q, "X-Forwarded-For")
+	if xri == "" && xff == "" {
+		if !strings.Contains(q.RemoteAddr, ":") {
+			return q.RemoteAddr
+		}
+		h, _, _ := net.SplitHostPort(q.RemoteAddr)
+		return h
+	}
+	for _, a := range strings.Split(xff, ",") {
+		a = strings.TrimSpace(a)
+		if net.ParseIP(a) != nil && isPublic(a) {
+			return a
 		}
 	}
-	h, _, _ := net.SplitHostPort(q.RemoteAddr)
-	return h
+	return xri
+}
+
+// genFwdClient gives the request a client by way of forwarding headers in every shape a chain
+// of proxies produces (one header line per name), and returns the name of the shape.  Shapes
+// marked (none) are those from which NO client address can be derived.
+func genFwdClient(rng *rand.Rand, q *gReq) string {
+	kept := q.Headers[:0:0]
+	for _, kv := range q.Headers {
+		if ck := http.CanonicalHeaderKey(kv[0]); ck != "X-Forwarded-For" && ck != "X-Real-Ip" {
+			kept = append(kept, kv)
+		}
+	}
+	q.Headers = kept
+	q.RemoteAddr = net.JoinHostPort(pick(rng, []string{"127.0.0.1", "10.0.0.9", "8.8.4.4"}), "1")
+	var pub, priv []string
+	for _, c := range genClients {
+		if isPublic(c) {
+			pub = append(pub, c)
+		} else {
+			priv = append(priv, c)
+		}
+	}
+	priv = append(priv, "127.0.0.1", "169.254.1.1", "::1", "fd00::1")
+	junk := []string{"unknown", "_hidden", "client.example", "10.1.2", "8.8.8.8:4711"}
+	xff := func(v string) { q.Headers = append(q.Headers, [2]string{"X-Forwarded-For", v}) }
+	xri := func(v string) { q.Headers = append(q.Headers, [2]string{"X-Real-Ip", v}) }
+	sep := func() string { return pick(rng, []string{", ", ",", " , "}) }
+	switch rng.Intn(12) {
+	case 0:
+		xff(pick(rng, pub))
+		return "xff-one-public"
+	case 1:
+		xff(pick(rng, priv))
+		return "xff-one-private(none)"
+	case 2:
+		xff(pick(rng, priv) + sep() + pick(rng, priv))
+		return "xff-several-all-private(none)"
+	case 3:
+		xff(pick(rng, junk))
+		return "xff-unparsable(none)"
+	case 4:
+		xff(pick(rng, junk) + sep() + pick(rng, priv))
+		return "xff-unparsable-and-private(none)"
+	case 5:
+		xff(pick(rng, priv) + sep() + pick(rng, pub) + sep() + pick(rng, pub))
+		return "xff-private-then-public"
+	case 6:
+		xff(pick(rng, pub) + sep() + pick(rng, priv))
+		return "xff-public-then-private"
+	case 7:
+		xff(pick(rng, junk) + sep() + pick(rng, pub))
+		return "xff-unparsable-then-public"
+	case 8:
+		xff(pick(rng, append(priv, junk...)))
+		xri(pick(rng, genClients))
+		return "xff-nothing-usable+x-real-ip"
+	case 9:
+		xri(pick(rng, genClients))
+		return "x-real-ip-only"
+	case 10:
+		xri(pick(rng, junk))
+		return "x-real-ip-unparsable"
+	default:
+		// the header is there but empty: as if absent
+		xff("")
+		if rng.Intn(2) == 0 {
+			xri(pick(rng, genClients))
+			return "xff-empty+x-real-ip"
+		}
+		q.RemoteAddr = net.JoinHostPort(pick(rng, genClients), "4711")
+		return "xff-empty-remoteaddr"
+	}
 }
